@@ -10,7 +10,8 @@
 
 struct C20Stats {
     uint64_t ops = 0, alloc_ops = 0, dry = 0, faulted = 0, hit = 0, not_hit = 0, pairs = 0;
-    uint64_t out_fail_clean = 0, out_success_same = 0;
+    uint64_t out_fail_clean = 0, out_success_same = 0, fail_no_handler = 0;
+    std::map<std::string, uint64_t> fail_no_handler_fn;
     uint64_t wr_faults = 0, events = 0, leak_checks = 0, dry_heap_misuse = 0, retained_ops = 0;
     uint64_t fn_ops[FN_COUNT] = {0}, fn_alloc_ops[FN_COUNT] = {0}, fn_faulted[FN_COUNT] = {0};
     std::map<std::string, uint64_t> viol_count;
@@ -183,6 +184,12 @@ static Verdict judge(const Plan &plan, const OpResult &dry, const OpResult &r) {
                 return v;
             }
         }
+        // "as for any other violation": every other failure this library reports goes through the constraint handler, and
+        // so does every out-of-memory failure of the unchanged tree (measured: none of 1.2 M faulted failures without it)
+        if (r.hcalls.empty()) {
+            v.cls = "handler-not-told";
+            v.detail = "the call reports failure after the failed allocation, dest is cleared, but no constraint handler was invoked";
+        }
         return v;
     }
     // the call claims success: then everything observable must equal the fault-free run
@@ -202,7 +209,7 @@ static void flush_stats(C20Stats &st, const Args &a) {
     std::string s = "{";
     auto add = [&](const char *k, uint64_t v) { s += (s.size() > 1 ? "," : "") + std::string("\"") + k + "\":" + std::to_string(v); };
     add("ops", st.ops); add("alloc_ops", st.alloc_ops); add("dry", st.dry); add("faulted", st.faulted); add("hit", st.hit);
-    add("not_hit", st.not_hit); add("pairs", st.pairs); add("out_fail_clean", st.out_fail_clean); add("out_success_same", st.out_success_same);
+    add("not_hit", st.not_hit); add("pairs", st.pairs); add("out_fail_clean", st.out_fail_clean); add("out_success_same", st.out_success_same); add("fail_no_handler", st.fail_no_handler);
     add("wr_faults", st.wr_faults); add("events", st.events); add("leak_checks", st.leak_checks); add("dry_heap_misuse", st.dry_heap_misuse); add("retained_ops", st.retained_ops);
     s += ",\"fn\":{";
     bool first = true;
@@ -366,6 +373,7 @@ int c20_batch(const Args &a) {
                 } else if (r.nfailed) {
                     bool failed = shape_of(op).neg_is_failure ? r.raw < 0 : r.raw != 0;
                     if (failed) st.out_fail_clean++;
+                    if (failed && r.hcalls.empty()) { st.fail_no_handler++; if (st.fail_no_handler_fn[g_fn[op.fn].name]++ == 0) { printf("NOHANDLER %s\n", g_fn[op.fn].name); fflush(stdout); } }
                     else st.out_success_same++;
                 }
                 if (!fc.from_k && __builtin_popcountll(fc.mask) < 3) {
